@@ -46,7 +46,7 @@ PROBES = [
     '+ __SRC__', '+ _ for __SRC__ in _', '.__SRC__', '.x for __SRC__ in _', '(__SRC__)', '[__SRC__]', '__SRC__ +', 'and __SRC__', '__SRC__ and',
     '< __SRC__', '__SRC__ <', '| __SRC__', '__SRC__ |',
     # closing the construct the template opened and opening another one
-    '_)(__SRC__', '_][__SRC__', '_) -> (__SRC__', '_: __SRC__', '_ = __SRC__', '_: _ = __SRC__', '_](_)[__SRC__',
+    '_)(__SRC__', '_][__SRC__', '_) -> (__SRC__', '_: __SRC__', '_ = __SRC__', '_: _ = __SRC__', '_](_)[__SRC__', '_].x[__SRC__', '_).x(__SRC__', '_)[_](__SRC__',
     'except __SRC__: pass', 'except: pass\nelse: __SRC__', 'except: pass\nfinally: __SRC__', 'except: pass\nelse: pass\nfinally: __SRC__',
     '@__SRC__', '@_\nclass _(__SRC__): pass\n@_', '_: pass\n case __SRC__', '__SRC__: pass\n case _',
     '_, *__SRC__', '_, /, __SRC__', '*, __SRC__', '_=__SRC__', '_, **__SRC__', '1: __SRC__', '{1: __SRC__}', '1: _, **__SRC__',
@@ -392,6 +392,51 @@ def check_extraction(ctx, tpls, F):
                 if not ppath:
                     continue
                 link = ppath[-1][0]
+                grown = {}          # class the placeholder can be turned into -> probe that does it
+                for probe in PROBES:
+                    try:
+                        t2 = ast.parse(text.replace('\0', probe))
+                    except SyntaxError:
+                        continue
+                    if len(t2.body) != len(tree.body):
+                        continue
+                    n2 = follow_path(t2, ppath)
+                    par2 = follow_path(t2, ppath[:-1])
+                    if par2 is None or type(par2) is not type(follow_path(tree, ppath[:-1])):
+                        continue
+                    if n2 is not None and not (isinstance(n2, ast.Name) and n2.id == pn.id):
+                        grown.setdefault(type(n2).__name__, probe)
+                # R5.3b: a guard that refuses the grown placeholder by naming the class it grew into has to name every class it can grow into
+                # (`ast.value.__class__ is Subscript` refuses `b][c` and lets `b].x[c`, `b](d)[c` through); `is not Name` names them all
+                if len(grown) > 1:
+                    par_f = None
+                    for cmp_ in walk_no_nested(fi.node):
+                        if not (isinstance(cmp_, ast.Compare) and len(cmp_.ops) == 1 and isinstance(cmp_.ops[0], (ast.Is, ast.In, ast.Eq)) and
+                                isinstance(cmp_.left, ast.Attribute) and cmp_.left.attr == '__class__' and
+                                isinstance(cmp_.left.value, ast.Attribute) and cmp_.left.value.attr == link):
+                            continue
+                        named = {y.id for y in ast.walk(cmp_.comparators[0]) if isinstance(y, ast.Name)}
+                        if not named or not (named & set(grown)):
+                            continue
+                        from ..struct import parent_map, enclosing_tests
+                        par_f = par_f or parent_map(fi.node)
+                        # the test guards a raise: find the If it belongs to
+                        cur = cmp_
+                        while cur in par_f and not isinstance(par_f[cur], ast.If):
+                            cur = par_f[cur]
+                        iff = par_f.get(cur)
+                        if not (isinstance(iff, ast.If) and any(isinstance(b, ast.Raise) for b in iff.body)):
+                            continue
+                        k3 = (fi.qualname, 'guard', link)
+                        if k3 in seen:
+                            continue
+                        seen.add(k3)
+                        missing = sorted(set(grown) - named)
+                        ctx.check('R5.3', not missing, fi.module, fi.qualname,
+                                  f'guard on grown placeholder `{pn.id}` ({link}): {norm(cmp_, 60)}',
+                                  f'the guard refuses the template placeholder `{pn.id}` when text at {{src}} has turned it into {sorted(named & set(grown))}, '
+                                  f'but such text can also turn it into {missing} (e.g. src = {grown[missing[0]]!r}' if missing else 'ok',
+                                  cmp_.lineno, sample={'function': fi.qualname, 'link': link, 'can_grow_into': sorted(grown), 'guard_names': sorted(named)})
                 for probe in PROBES:
                     try:
                         t2 = ast.parse(text.replace('\0', probe))
